@@ -369,7 +369,7 @@ Definition str_decimal64_fixed (digits precision : Z) : str :=
 (* pkg/utils/gnmiPathUtils.go strDecimal64 (of a pb.Decimal64) as used by StrVal (precision is uint32):
    unrepaired: "%d.%d" of i and |frac| - no zero padding of the fraction, sign lost in (-1,0) *)
 Definition str_decimal64_utils (fx : bool) (digits precision : Z) : res str :=
-  if fx then Ok (str_decimal64_fixed digits precision)
+  if fx then Ok (if precision =? 0 then show_Z digits ++ [46%N; 48%N] else str_decimal64_fixed digits precision)
   else if 0 <? precision then
     let div := wrap64 (10 ^ precision) in
     if div =? 0 then Panic
@@ -450,13 +450,13 @@ Definition read_N (s : str) : option N := match s with [] => None | _ => read_N_
 (* an optionally negative decimal integer literal *)
 Definition read_Z (s : str) : option Z :=
   match s with
-  | 45%N :: r => option_map (fun n => - Z.of_N n) (read_N r)
-  | _ => option_map Z.of_N (read_N s)
+  | c :: r => if (c =? 45)%N then option_map (fun n => - Z.of_N n) (read_N r) else option_map Z.of_N (read_N s)
+  | [] => None
   end.
 (* "[-]int.frac" -> (digits, number of fraction digits); "[-]int" -> (digits, 0) *)
 Definition read_decimal (s : str) : option (Z * Z) :=
-  let neg := match s with 45%N :: _ => true | _ => false end in
-  let body := match s with 45%N :: r => r | _ => s end in
+  let neg := match s with c :: _ => (c =? 45)%N | [] => false end in
+  let body := match s with c :: r => if (c =? 45)%N then r else s | [] => s end in
   match split_on 46%N body with
   | [ip] => option_map (fun n => ((if neg then - Z.of_N n else Z.of_N n), 0)) (read_N ip)
   | [ip; fp] =>
